@@ -1,5 +1,6 @@
 import OdxVerif.Proofs.AtomicRT
 import OdxVerif.Spec.NumRepr
+import OdxVerif.Proofs.FlatBits
 /-! # C02 — encoded PDUs are bit-exact with the ODX wire format
     Tier proved here: **atomic objects** (every `A_INT32` encoding, every bit length ≥ 1, bit position,
     byte order, arbitrary surrounding message). The composite tiers (positions relative to the enclosing
@@ -86,6 +87,40 @@ theorem C02_decode_reads (enc : Option Enc) (hk : int32Known enc = true) (bl : N
         .ok (.int v, { msg := s'.msg, cursorByte := s'.cursorByte, cursorBit := 0 }) := by
   obtain ⟨s', h1, _, h3⟩ := atomic_int32_roundtrip enc hk bl hbl v hr hl s hmsg
   exact ⟨s', h1, h3⟩
+
+/-- **Bit-exact PDUs, flat composite tier.** For a request/response/structure made of (≤ 4000) positioned
+    `A_INT32` VALUE parameters and an accepted assignment of representable values with no overlap warning:
+    (1) bit `j` of the ODX representation of each value sits at the absolute position the positional rule gives —
+    the object's byte position is the structure's origin (0) + BYTE-POSITION, or the byte behind the previous
+    parameter (`cursorAfter`), its bit position is BIT-POSITION, its byte order as declared;
+    (2) every bit no object claims is zero. Together: each bit of the PDU equals what the ODX rules prescribe. -/
+theorem C02_bit_exact_flat (ovs : List (Obj × Int)) (hlen : ovs.length ≤ 4000) (values : List (String × PVal))
+    (trig : Option Bytes)
+    (hok : ∀ ov ∈ ovs, ov.1.ok ∧ Spec.representable ov.1.enc ov.1.bl ov.2)
+    (hlook : ∀ ov ∈ ovs, lookup ov.1.name values = some (.atom (.int ov.2)))
+    (hknown : values.any (fun kv => !((ovs.map fun ov => ov.1.toParam).any fun p => p.name == kv.1)) = false)
+    (pdu : Bytes)
+    (henc : encodeMessage none (ovs.map fun ov => ov.1.toParam) (.dict values) trig true = .ok (pdu, 0)) :
+    (∀ pre o v post, ovs = pre ++ (o, v) :: post → ∀ j, j < o.bl →
+        getBit pdu (absBit (o.pos 0 (cursorAfter 0 (pre.map (·.1)) 0)) o.k o.hl (j + o.bp)) = (Spec.repr o.enc o.bl v).testBit j) ∧
+    (∀ a, (∀ pre o v post, ovs = pre ++ (o, v) :: post → ¬ o.claims (o.pos 0 (cursorAfter 0 (pre.map (·.1)) 0)) a) →
+        getBit pdu a = false) := by
+  obtain ⟨s0, hm, _, hw, hc, ho, hrun⟩ := encodeMessage_flat ovs hlen values trig hok hlook hknown
+  rw [hrun] at henc
+  simp only [Except.ok.injEq, Prod.mk.injEq] at henc
+  obtain ⟨hpdu, hwarn⟩ := henc
+  constructor
+  · intro pre o v post heq j hj
+    have hmem : (o, v) ∈ ovs := by rw [heq]; simp
+    obtain ⟨⟨hk, hbl⟩, hr⟩ := hok (o, v) hmem
+    have := flat_described pre post o v s0 (by rw [← heq, hwarn, hw]) j hj
+    rw [← heq, hpdu, ho, hc] at this
+    rw [this, C02_numrepr o.enc hk o.bl hbl v hr]
+  · intro a ha
+    have := flat_undescribed ovs s0 a (by rw [ho, hc]; exact ha)
+    rw [hpdu, hm] at this
+    rw [this]
+    simp [getBit]
 
 /-! non-vacuity: −5 as a 12-bit two's-complement object at bit position 3, low-high byte order, into a
     message that already holds `00 ff` -/
